@@ -427,6 +427,93 @@ fn run_case(base: Instant, c: &Case, dump: bool) -> Out {
     }
 }
 
+/// A side that has been quiet sends an ack-eliciting packet `delta` before its idle deadline; the
+/// answer arrives after that deadline. Sending restarts the idle timer (RFC 9000 10.1), so nobody
+/// may time out while this exchange repeats. Returns violations.
+fn run_late_sender(base: Instant, idle_ms: u32, lat_ms: u64, delta_ms: u64, who: usize, keep_alive: Option<u64>, dump: bool) -> Result<(Vec<(String, String)>, u64), String> {
+    guarded(|| {
+        let mut cfg = cfg_by_name("default");
+        cfg.client.idle_ms = Some(idle_ms);
+        cfg.server.idle_ms = Some(idle_ms);
+        cfg.latency = Duration::from_millis(lat_ms);
+        if let Some(k) = keep_alive {
+            // keep-alive on the OTHER side only, slower than the idle period: it must not matter
+            if who == CLIENT { cfg.server.keep_alive_ms = Some(k) } else { cfg.client.keep_alive_ms = Some(k) }
+        }
+        let mut p = std_pair_pre(base, &cfg, Wl::W0, ReadMode::default(), |_| {});
+        let mut viol = vec![];
+        // handshake and its aftermath (MTU probes, NEW_CONNECTION_ID exchanges) settle
+        let mut g = 0;
+        while g < 5000 {
+            g += 1;
+            let quiet = p.w.net.is_empty() && p.client().app.obs.handshake_confirmed;
+            let idle_only = [CLIENT, SERVER].iter().all(|n| p.w.nodes[*n].conns.values().all(|s| s.conn.verif_probe().timers.iter().all(|(name, _)| *name == "Idle" || *name == "KeepAlive" || *name == "PushNewCid")));
+            if quiet && idle_only {
+                break;
+            }
+            if !p.w.step() {
+                break;
+            }
+        }
+        let ch = |p: &StdPair, n: usize| if n == CLIENT { Some(p.cch) } else { p.sch() };
+        let mut rounds = 0u64;
+        let mut not_applicable = false;
+        for round in 0..3 {
+            // the peer speaks first, so that its own idle deadline (restarted by our acknowledgement)
+            // lies after ours and the late PING reaches it in time
+            apply_op(&mut p, &Op::Ping(1 - who));
+            let settle_until = p.w.t + Duration::from_millis(2 * lat_ms + 40);
+            while let Some((at, _)) = p.w.next_event() {
+                if at > settle_until {
+                    break;
+                }
+                p.w.step();
+            }
+            let Some(c) = ch(&p, who) else { break };
+            let Some(deadline) = p.w.slot(who, c).and_then(|s| s.conn.verif_probe().timers.iter().find(|(n, _)| *n == "Idle").map(|(_, t)| t.saturating_duration_since(p.w.base))) else { break };
+            let target = deadline.saturating_sub(Duration::from_millis(delta_ms));
+            if target <= p.w.t {
+                break;
+            }
+            // run whatever is due before the target instant, then act exactly at it
+            while let Some((at, _)) = p.w.next_event() {
+                if at > target {
+                    break;
+                }
+                p.w.step();
+            }
+            p.w.t = target;
+            apply_op(&mut p, &Op::Ping(who));
+            rounds += 1;
+            // until well after the old deadline
+            let until = deadline + Duration::from_millis(4 * lat_ms + 60);
+            while let Some((at, _)) = p.w.next_event() {
+                if at > until {
+                    break;
+                }
+                p.w.step();
+            }
+            let lost_of = |p: &StdPair, node: usize| -> Vec<String> { p.w.nodes[node].conns.values().chain(p.w.nodes[node].dead.iter().map(|(_, s)| s)).flat_map(|s| s.lost.iter().map(|e| format!("{e:?}"))).collect() };
+            let (mine, theirs) = (lost_of(&p, who), lost_of(&p, 1 - who));
+            // if the PING reached the peer only after the peer's own deadline, the peer rightly timed
+            // out (and we are reset): not a case for this oracle. What may not happen is that the
+            // sender itself times out although it has just restarted its timer by sending.
+            if mine.iter().any(|l| l == "TimedOut") {
+                viol.push(("sender-timed-out-after-restarting-idle-timer".into(), format!("round {round}: node{who} sent a PING {delta_ms} ms before its idle deadline ({deadline:?}), which restarts the timer, and timed out anyway (peer: {theirs:?})")));
+            } else if !mine.is_empty() || !theirs.is_empty() {
+                not_applicable = true;
+            }
+            if !viol.is_empty() || not_applicable {
+                break;
+            }
+        }
+        if dump {
+            print!("{}", crate::trace::dump(&p.w));
+        }
+        (viol, rounds)
+    })
+}
+
 pub fn main(args: &Args) -> ! {
     if args.replay.is_some() {
         replay(args);
@@ -436,7 +523,7 @@ pub fn main(args: &Args) -> ! {
     let mut rep = Report::new("C08", args, "fault_enumeration");
     let thorough = args.tier == Tier::Thorough;
     let dl = deadline(if thorough { 1200 } else { 45 });
-    rep.rule = "E3 over close/crash points: for each (configuration, workload) the baseline is run once to count its steps; then for EVERY step index j of it and each kind in {client close, server close, both close, client black-holed, server black-holed} and each drop mask over the first M datagrams emitted after the close (plus duplication of the first close packet, plus an exact stateless reset reaching the closing side 1 ms / 40 ms after its close, as from a peer that lost its state) a complete execution is run on the real endpoints and the termination oracles are evaluated. Non-trivial = the run differs from the baseline by trace hash; distinct = distinct trace hashes.".into();
+    rep.rule = "E3 over close/crash points: for each (configuration, workload) the baseline is run once to count its steps; then for EVERY step index j of it and each kind in {client close, server close, both close, client black-holed, server black-holed} and each drop mask over the first M datagrams emitted after the close (plus duplication of the first close packet, plus an exact stateless reset reaching the closing side 1 ms / 40 ms after its close, as from a peer that lost its state) a complete execution is run on the real endpoints and the termination oracles are evaluated. Late senders: for idle timeouts 1 s / 3 s x one-way latencies 10/100/200 ms x either side, a quiet connection's side sends a PING 5..350 ms before its idle deadline (three rounds; the answer arrives after the old deadline): nobody may time out. Non-trivial = the run differs from the baseline by trace hash; distinct = distinct trace hashes.".into();
     let wls: Vec<(String, Wl)> = vec![("W1".into(), Wl::W1), ("W6".into(), Wl::W6), ("W2".into(), Wl::W2), ("W0".into(), Wl::W0)];
     let mbits = if thorough { 6 } else { 3 };
     let mut cases = vec![];
@@ -524,7 +611,48 @@ pub fn main(args: &Args) -> ! {
             if !lost.is_empty() {
                 rep.violation(Violation { signature: "keepalive-timed-out".into(), what: format!("with keep-alive 300 ms and idle timeout 1 s the connection was lost within {t:?}: {lost:?}"), replay: json!({"check":"c08","cfg":"idle1s+ka","kind":"keepalive"}) });
             }
-            rep.part("keepalive", json!({"virtual_time_s": t.as_secs_f64(), "steps": steps, "lost": lost}));
+            // late senders: an ack-eliciting packet sent shortly before the idle deadline restarts the timer
+    {
+        let mut tasks = vec![];
+        for idle in [1000u32, 3000] {
+            for lat in [10u64, 100, 200] {
+                for delta in [5u64, 20, 90, 180, 350] {
+                    for who in [CLIENT, SERVER] {
+                        for ka in [None, Some(idle as u64 * 2)] {
+                            if (delta as u32) < idle / 2 {
+                                tasks.push((idle, lat, delta, who, ka));
+                            }
+                        }
+                    }
+                }
+            }
+        }
+        let planned = tasks.len();
+        let (res, capped) = e3(tasks, dl, |&(idle, lat, delta, who, ka)| run_late_sender(base, idle, lat, delta, who, ka, false));
+        rep.exhaustive &= !capped;
+        let mut rounds_total = 0u64;
+        for ((idle, lat, delta, who, ka), r) in &res {
+            rep.evaluations += 1;
+            let rj = json!({"check":"c08","kind":"late-sender","idle_ms":idle,"lat_ms":lat,"delta_ms":delta,"who":who,"keep_alive_other":ka});
+            match r {
+                Err(e) => rep.violation(Violation { signature: "panic".into(), what: format!("late sender idle={idle} lat={lat} delta={delta}: panic: {e}"), replay: rj }),
+                Ok((v, rounds)) => {
+                    rounds_total += rounds;
+                    let mut h = std::collections::hash_map::DefaultHasher::new();
+                    ("late", idle, lat, delta, who, ka).hash(&mut h);
+                    rep.distinct.insert(h.finish());
+                    for (sig, what) in v {
+                        rep.violation(Violation { signature: sig.clone(), what: format!("idle timeout {idle} ms, one-way latency {lat} ms: {what}"), replay: rj.clone() });
+                    }
+                }
+            }
+        }
+        rep.part("late_senders", json!({"planned": planned, "executed": res.len(), "rounds": rounds_total, "capped": capped}));
+        if rounds_total == 0 {
+            machinery("vacuity guard: no late-sender round was ever played");
+        }
+    }
+    rep.part("keepalive", json!({"virtual_time_s": t.as_secs_f64(), "steps": steps, "lost": lost}));
         }
         Err(e) => rep.violation(Violation { signature: "panic".into(), what: e, replay: json!({"check":"c08","kind":"keepalive"}) }),
     }
@@ -554,6 +682,12 @@ fn replay(args: &Args) -> ! {
     let path = args.replay.as_ref().unwrap();
     let v: Value = serde_json::from_str(&std::fs::read_to_string(path).unwrap_or_else(|e| machinery(&format!("{e}")))).unwrap_or_else(|e| machinery(&format!("{e}")));
     let r = &v["replay"];
+    if r["kind"].as_str() == Some("late-sender") {
+        let g = |k: &str| r[k].as_u64().unwrap_or(0);
+        let out = run_late_sender(Instant::now(), g("idle_ms") as u32, g("lat_ms"), g("delta_ms"), g("who") as usize, r["keep_alive_other"].as_u64(), true);
+        println!("{out:?}");
+        std::process::exit(0);
+    }
     let c = Case {
         cfg: r["cfg"].as_str().unwrap_or("plain").to_string(),
         wl: wl_from_str(r["wl"].as_str().unwrap_or("W1")),
